@@ -142,11 +142,63 @@ def run(run: Run):
                     run.violation(f"batch accepted with an altered response scalar {tag[2]}[{tag[3]}]", rp)
 
     sessions.run_sessions(run, specs2, oracle2, relevant=32 | 128 | 8 | 4, name="c08b")
+    # round 3: batches in which members REPEAT (same statement, context and proof bytes several times).  A weight derivation that combines the
+    # per-proof words with a self-inverse or order-blind operation makes the weights of such batches independent of the repeated proofs; the
+    # adversary then reads the weights off one run and resubmits copies with defects that cancel over the groups of copies.
+    patterns = [[0, 0, 1, 1], [0, 0, 1], [0, 1, 0, 1], [1, 0, 0, 1, 0, 0]] if quick else [[0, 0, 1, 1], [0, 0, 1], [0, 1, 0, 1], [1, 0, 0, 1, 0, 0], [0, 0, 0, 0, 1, 1], [0, 1, 1, 0]]
+    dups = []
+    for di, pat in enumerate(patterns * (1 if quick else 4)):
+        T = 1 + di % 3
+        mems = make_batch(rng, 2, T, quick)
+        dups.append((di, T, pat, mems))
+    specs3 = [{"id": f"c08-d{di}", "group": "fm", "members": mems, "with_gens": False,
+               "verifies": [{"mode": "VerifyOnly", "vmembers": [gen.vmember(mems[i], i) for i in pat]}]} for (di, T, pat, mems) in dups]
+    observed3 = {}
+
+    def oracle3(run, s, o):
+        vo = o["verifies"][0]
+        if vo["result"] != "ok":
+            run.violation(f"honest batch with repeated members rejected: {vo['result'][:80]}", {"kind": "session", "spec": sessions.strip(s)})
+            return
+        ws = weights_of(s["verifies"][0], o, vo)
+        observed3[s["id"]] = ws
+        if any(w == 0 for w in ws) or len(set(ws)) != len(ws):
+            run.violation("weights of a batch with repeated members are zero or equal", {"kind": "session", "spec": sessions.strip(s), "weights": [hex(w) for w in ws]})
+        run.count(["dup-honest", len(ws)], {"batch_with_repeats": len(ws)})
+
+    sessions.run_sessions(run, specs3, oracle3, relevant=32 | 128 | 8 | 4, name="c08c")
+    specs4 = []
+    for (di, T, pat, mems) in dups:
+        ws = observed3.get(f"c08-d{di}")
+        if not ws:
+            continue
+        W = [sum(w for w, i in zip(ws, pat) if i == g) % L for g in (0, 1)]
+        derived, verifies, tags = [], [], []
+        for k in range(T):
+            t = gen.rscalar(rng)
+            d0, d1_ = (W[1] * t) % L, (-W[0] * t) % L
+            derived.append({"from": 0, "ops": [{"op": "scalar_add", "field": "d1", "idx": k, "hex": gen.hx(d0)}]})
+            derived.append({"from": 1, "ops": [{"op": "scalar_add", "field": "d1", "idx": k, "hex": gen.hx(d1_)}]})
+            alt = {0: 2 + len(derived) - 2, 1: 2 + len(derived) - 1}
+            verifies.append({"mode": "VerifyOnly", "vmembers": [gen.vmember(mems[i], alt[i]) for i in pat]})
+            tags.append(k)
+        specs4.append({"id": f"c08-e{di}", "group": "fm", "members": mems, "derived": derived, "verifies": verifies, "_tags": tags, "_pat": pat, "_ws": ws, "with_gens": False})
+
+    def oracle4(run, s, o):
+        for vi, (k, vo) in enumerate(zip(s["_tags"], o["verifies"])):
+            res = vo["result"]
+            run.count(["dup-attack", len(s["_pat"]), k, res.split(":")[0]], {"attack": "defects cancelling over groups of repeated members", "pattern": s["_pat"], "coordinate": k, "result": res[:60]})
+            run.bump("repeat attack")
+            if res == "ok":
+                run.violation(f"batch of individually invalid proofs accepted: members repeated as {s['_pat']}, defects on d1[{k}] chosen from the weights of an earlier run "
+                              f"cancel over the groups of copies", {"kind": "session", "spec": sessions.strip(s), "verify": vi, "weights_observed_on_honest_run": [gen.hx(w) for w in s["_ws"]]})
+
+    sessions.run_sessions(run, specs4, oracle4, relevant=32 | 128 | 8 | 4, name="c08d")
     return run.finish(
         "proof",
         "batches of 2-8 proofs (extension degrees 1-6, mixed aggregation); weights are read off the honest run, then for pairs (i, j) and every blinding coordinate k "
         "two individually invalid proofs with defects (w_j t, -w_i t) on d1[k] are resubmitted (plus a plain +-delta pair), and each response scalar r1, s1, d1[k] of a "
-        "member is changed to check that every weight ratio involving it changes; the weight transcript and per-proof RNG operations are compared with the Coq "
+        "member is changed to check that every weight ratio involving it changes; batches in which members repeat ([A,A,B,B], [A,B,A,B], ...) with defects cancelling over the groups of copies; the weight transcript and per-proof RNG operations are compared with the Coq "
         "model; distinct by (kind, batch size, T, coordinate, outcome)",
         ["weights of an earlier run are what an adaptive adversary can observe; the attack succeeds iff the weights do not depend on the altered responses"],
         TRUSTED)
